@@ -8,7 +8,9 @@ Model of `replace_operators` and of the head of `parse_boolean_expr` in
 ```
 pattern = ("(?:[^"\\]|\\.)*"|'(?:[^'\\]|\\.)*')|\!(?!=)|\^|\bv\b        (fixed, commit bc23251)
 pattern = \!(?!=)|\^|\bv\b                                               (as found, `fixed := false`)
-replacements = {"!": "not ", "^": " and ", "v": " or "};  a quoted span is kept as is
+replacements = {"!": " not ", "^": " and ", "v": " or "}; result `.strip()`ped   (fixed, commit c2f8974)
+replacements = {"!": "not ", "^": " and ", "v": " or "}; not stripped           (as found)
+a quoted span is kept as is
 
 if expr.strip() == "": raise SyntaxError
 if expr.isidentifier() and not iskeyword(expr): return variable_hook(expr)   (fixed, commit 9412e07)
@@ -92,12 +94,22 @@ def repl (fixed : Bool) : Mode → List Char → List Char
           else repl fixed (.str q false) cs)
   | .code pw, c :: cs =>
     if fixed && isQuote c && closes c false cs then c :: repl fixed (.str c false) cs
-    else if c == '!' && !nextIsEq cs then "not ".toList ++ repl fixed (.code false) cs
+    else if c == '!' && !nextIsEq cs then
+      (if fixed then " not ".toList else "not ".toList) ++ repl fixed (.code false) cs
     else if c == '^' then " and ".toList ++ repl fixed (.code false) cs
     else if c == 'v' && !pw && !nextIsWord cs then " or ".toList ++ repl fixed (.code true) cs
     else c :: repl fixed (.code (isWord c)) cs
 
-def replaceOperators (fixed : Bool) (s : List Char) : List Char := repl fixed (.code false) s
+/-- ASCII characters `str.strip()` removes -/
+def pySpace (c : Char) : Bool :=
+  c == ' ' || c == '\t' || c == '\n' || c == '\r' || c == '\x0b' || c == '\x0c'
+
+/-- `str.strip()` -/
+def strip (s : List Char) : List Char :=
+  ((s.dropWhile pySpace).reverse.dropWhile pySpace).reverse
+
+def replaceOperators (fixed : Bool) (s : List Char) : List Char :=
+  if fixed then strip (repl fixed (.code false) s) else repl fixed (.code false) s
 
 def pyKeywords : List String :=
   ["False", "None", "True", "and", "as", "assert", "async", "await", "break", "class", "continue",
@@ -109,7 +121,7 @@ def isIdentifier : List Char → Bool
   | [] => false
   | c :: cs => (c.isAlpha || c == '_') && cs.all isWord
 
-def isBlank (s : List Char) : Bool := s.all Char.isWhitespace
+def isBlank (s : List Char) : Bool := s.all pySpace
 
 /-- the fast path of `parse_boolean_expr`: the whole text is taken as one name -/
 def fastPath (fixed : Bool) (s : List Char) : Bool :=
@@ -148,7 +160,7 @@ def tokText : Tok → List Char
 spellings, the token's own text otherwise -/
 def tokTextR (t : Tok) : List Char :=
   match t with
-  | .bang => "not ".toList
+  | .bang => " not ".toList
   | .caret => " and ".toList
   | .ident s => if s = "v" then " or ".toList else s.toList
   | t => tokText t
